@@ -25,7 +25,7 @@ fn all_bound(t: Tier) -> f64 {
 }
 
 fn gen(t: Tier, _seed: u64, emit: &mut dyn FnMut(Case)) {
-    for cid in Cid::ALL {
+    for cid in Cid::WITH_CUSTOM {
         let bits = cid.bits();
         let m = bsv::spec::spec(cid).syms.len();
         emit(Case::All { cid, n: 0, first: 0 });
